@@ -33,6 +33,14 @@ Tie (three parts, all on the working tree on every run):
     request's own body (extract token `m<hdr>:<schema>`).
     For every request the compiled model (`nxdrv_C11`, line `full`) must predict both what the real
     `server.handle()` did and the exact bytes sent back (or silence, or that the exception leaves the loop).
+    Registered OBJECTS and the TIME handlers take (harness/c11_objects.py, lean/NxModel/Nex/RmcServerObj.lean): every class is
+    also registered as an instance of a stateful user subclass whose truth value is each of `OBJ.FLAVOURS` (plain, empty /
+    non-empty container via `__len__`, `__bool__` False / True, both, truth values that change from request to request), and
+    handlers await each of `OBJ.DELAYS_MS` (0 … 1 s … 29 / 30 / 31 s … 1 h … 1 day, + random) of VIRTUAL time (the loop of
+    harness/sim.py) before returning / raising an RMC error / raising a Python exception; the session lingers afterwards, so
+    that a second answer is seen. Same oracle (the object's truth value and the duration are no inputs of it), the model
+    (`sreqo` = `serveStepTimed`) must also predict the virtual time until the loop is back at recv(), and every request is
+    re-run with an instant handler on a plain object on a fresh connection (real loop) and must be answered byte-identically.
  3. oracle on the real code = the property's outcome table, judged independently of the model.
 """
 import os, random, struct, multiprocessing, importlib, collections
@@ -41,6 +49,7 @@ import rmc_servers as T
 import rmc_server_sim as R
 import rmc_results as RES
 import rmc_frames as FR
+import c11_objects as OBJ
 from nintendo.nex import errors, settings as nexsettings
 
 LEVEL = "proof"
@@ -377,6 +386,90 @@ def lethal_cases(si, idx, rng):
     return out
 
 
+def object_cases(si, idx, rng, minor, all_codes, nmeth, delays, tag, bodies=None):
+    """a compact request mix for one registered class: per chosen method every outcome kind of the property (success, stub,
+    RMC error, mapped / unmapped exception, wrongly typed result, unreadable body) + unknown / unsupported method ids;
+    `delays`: None or the list of virtual milliseconds the handler awaits first (each delay x each outcome kind)"""
+    S = session_settings(minor)
+    cases = []
+    ids = [m["id"] for m in si["methods"]]
+    def add(method, body, sc, base, extract, delay=None):
+        sc = dict(sc, vseed=sc.get("vseed", rng.randrange(1 << 30)))
+        if rng.random() < 0.15: sc["yields"] = rng.randint(1, 2)
+        if rng.random() < 0.1: sc["send_yields"] = 1
+        kind = tag + ":" + base
+        if delay is not None:
+            sc["delay_ms"] = delay
+            kind = "%s-%s:%s" % (tag, ("%dms" % delay) if delay in OBJ.DELAYS_MS else "random", base)
+        c = mk_case(si, idx, method, body, sc, kind, extract, rng)
+        if delay is not None: c["linger_ms"] = rng.choice([0, 0, 1000, delay + 1000, 2 * delay + 7200000])
+        cases.append(c)
+    sup = [m for m in si["methods"] if m["supported"]]
+    usable = []
+    for m in rng.sample(sup, len(sup)):
+        if len(usable) >= nmeth: break
+        try: usable.append((m, R.valid_body(si, m, S, rng.randrange(1 << 30))))
+        except R.V.Unbuildable: continue
+    def outcomes(m, body):
+        yield body, {"mode": "ok"}, "ok", "ok"
+        yield body, {"mode": "stub"}, "stub", "ok"
+        yield body, {"mode": "raise", "exc": "RMCError", "code": rng.choice(all_codes + RMC_EDGE_CODES)}, "raise:rmc", "ok"
+        name = rng.choice(R.MAPPED + R.SUBCLASSED)
+        yield body, {"mode": "raise", "exc": name}, "raise:" + R.EXC[name][1], "ok"
+        yield body, {"mode": "raise", "exc": rng.choice(R.UNMAPPED)}, "raise:other", "ok"
+        yield body, {"mode": "wrong"}, "wrong-type:" + m["resp"], "ok"
+        if m["nreq"] > 0 and len(body) > 0:
+            yield body[:rng.randrange(len(body))], {"mode": rng.choice(["ok", "stub"])}, "truncated", "other"
+    for m, body in usable:
+        if delays is None:
+            for b, sc, base, ex in outcomes(m, body): add(m["id"], b, sc, base, ex)
+        else:
+            for d in delays:
+                for b, sc, base, ex in outcomes(m, body):
+                    if base in ("wrong-type:" + m["resp"], "truncated", "stub") and rng.random() < 0.6: continue
+                    add(m["id"], b, sc, base, ex, d)
+    d = (lambda: None) if delays is None else (lambda: rng.choice(delays))
+    for m in [m for m in si["methods"] if not m["supported"]][:2]:
+        add(m["id"], b"", {"mode": "ok"}, "unsupported", "ok", d())
+    top = max(ids) if ids else 0
+    for u in [top + 1, rng.randrange(1 << 32)] + ([usable[0][0]["id"] | 0x8000] if usable else []):
+        if u not in ids: add(u, usable[0][1] if usable else b"", {"mode": "ok"}, "unknown-method", "ok", d())
+    rng.shuffle(cases)
+    return cases
+
+
+def object_jobs(kind, srvinfos, rng, tier, minor, all_codes, extra):
+    """-> list of (srvinfos, cases, minor, flavours) for the virtual-time runner"""
+    quick = tier == "quick"
+    jobs = []
+    if kind == "objects":
+        # one connection per truth-value flavour of the registered object
+        for fl in OBJ.FLAVOURS:
+            cases = object_cases(srvinfos[0], 0, rng, minor, all_codes, 2 if quick else 6, None, "object-" + fl)
+            cases += [dict(c, kind="object-%s:%s" % (fl, c["kind"])) for c in unknown_protocol_cases(srvinfos, rng, 1, minor)[:3]]
+            rng.shuffle(cases)
+            jobs.append((srvinfos, cases, minor, [fl]))
+    elif kind == "slow":
+        # every delay of the list (+ random ones) x every outcome kind, on objects of a random flavour
+        delays = OBJ.DELAYS_MS + [rng.randrange(1, 100000), rng.randrange(100000, 10000000), rng.choice([29999, 30001, 59999, 60001])]
+        fl = rng.choice(OBJ.FLAVOURS)
+        cases = object_cases(srvinfos[0], 0, rng, minor, all_codes, 1 if quick else 4, delays, "slow")
+        jobs.append((srvinfos, cases, minor, [fl]))
+    elif kind == "objects-mixed":
+        # several registered objects of different flavours, fast and slow handlers, long sequences
+        fls = [rng.choice(OBJ.FLAVOURS) for _ in srvinfos]
+        fls[:len(OBJ.FALSY_AT_FIRST)] = rng.sample(sorted(OBJ.FALSY_AT_FIRST), min(len(fls), len(OBJ.FALSY_AT_FIRST)))
+        pool = []
+        for i, si in enumerate(srvinfos):
+            pool += object_cases(si, i, rng, minor, all_codes, 2, None, "objects-mixed")
+            pool += object_cases(si, i, rng, minor, all_codes, 1, rng.sample(OBJ.DELAYS_MS, 4), "objects-mixed-slow")
+        pool += [dict(c, kind="objects-mixed:" + c["kind"]) for c in unknown_protocol_cases(srvinfos, rng, 10, minor)]
+        jobs.append((srvinfos, [rng.choice(pool) for _ in range(extra)], minor, fls))
+    for j in jobs:
+        for c in j[1]: c["objects"] = j[3]
+    return jobs
+
+
 def _worker(job):
     """job = (kind, srvinfos, seed, tier, minor, all_codes, extra) -> (srvinfos, cases, results, minor)"""
     kind, srvinfos, seed, tier, minor, all_codes, extra = job
@@ -400,6 +493,17 @@ def _worker(job):
         pool += unknown_protocol_cases(srvinfos, rng, 20, minor)
         cases = [rng.choice(pool) for _ in range(extra)]
         jobs = [(srvinfos, cases, minor)]
+    if kind in ("objects", "slow", "objects-mixed"):
+        vjobs = object_jobs(kind, srvinfos, rng, tier, minor, all_codes, extra)
+        res = OBJ.run_sessions(vjobs, seed)
+        out = []
+        for j, r in zip(vjobs, res):
+            # the reference: the same request, the handler doing the same AT ONCE, on a plain object of the generated class, alone
+            # on a fresh connection under the ordinary event loop
+            sel = [i for i, x in enumerate(r) if not x.get("skipped")]
+            fresh = dict(zip(sel, R.run_fresh(j[0], [OBJ.plain(j[1][i]) for i in sel], j[2])))
+            out.append((j[0], j[1], r, j[2], fresh, schema_export(j[1], j[2])))
+        return out
     res = R.run_sessions(jobs)
     out = []
     for j, r in zip(jobs, res):
@@ -571,6 +675,10 @@ def judge_case(case, si, res):
     who = "%s.%s method %d (%s)" % (case["module"], case["class"], case["method"], case["kind"])
     if case.get("what"): who += " [%s; body %s]" % (case["what"], case["body"][:200])
     inv = judge_invocations(case, si, res) or judge_arguments(case, res)
+    if not inv and case.get("objects") and res.get("called") and res.get("observed") == "base" and res.get("loop") == "alive" \
+            and not (case["script"]["mode"] == "raise" and R.EXC.get(case["script"].get("exc"), (0, ""))[1] == "base"):
+        # the awaited user coroutine was cancelled from outside before it was done: whatever is answered is not its outcome
+        inv = ("handler-abandoned", "the user's coroutine did not get to finish (%s was thrown into it, the loop went on)" % res.get("observed_type"))
     if bad and inv: return (bad[0], "%s; moreover %s" % (bad[1], inv[1]))
     if inv: return (inv[0], "%s: %s" % (who, inv[1]))
     return bad
@@ -612,6 +720,32 @@ def judge_response(case, si, res):
     if a["ok"]: return ("wrong-outcome", "%s: expected error %#x, got a success response" % (who, exp[1]))
     if a["code"] != exp[1]: return ("wrong-code", "%s: expected error code %#x, got %#x" % (who, exp[1], a["code"]))
     return None
+
+
+def object_context(case, res):
+    """the circumstances the objects / slow families add to a request (for the violation text)"""
+    fl = case["objects"][case["srv"]] if case["srv"] is not None else None
+    t = ""
+    if fl is not None:
+        t += " [the registered object is an instance of a stateful subclass (%s) and bool(object) was %s when the request arrived" % (fl, res.get("truthy"))
+    else:
+        t += " [registered objects: %s" % ",".join(case["objects"])
+    d = case["script"].get("delay_ms")
+    if d is not None: t += "; the handler awaits %g s before it %s; the loop was back at recv() after %g s, datagrams sent at %s ms" % (
+        d / 1000.0, {"ok": "returns", "raise": "raises", "stub": "calls the generated stub"}.get(case["script"]["mode"], "returns"),
+        res.get("elapsed_ms", 0) / 1000.0, res.get("sent_at_ms"))
+    return t + "]"
+
+
+def object_sequence(srvinfos, seq, minor, si):
+    """the request alone if that still fails (reference readings are not recomputed here: judged on the response only), else with
+    all of its predecessors on the connection (the truth value of a `grows` / `drains` / `flips` object depends on them)"""
+    try:
+        r = OBJ.run_sessions([(srvinfos, seq[-1:], minor, seq[-1]["objects"])])[0][0]
+        if judge_case(seq[-1], si, r): return seq[-1:]
+    except Exception:
+        pass
+    return seq
 
 
 def real_dispatch(srvinfos, res):
@@ -727,6 +861,20 @@ def run(ctx):
             if s["protocol"] not in used and len(pick) < 8:
                 pick.append(s); used.add(s["protocol"])
         jobs.append(("mixed", pick, rng.randrange(1 << 30), ctx.tier, rng.choice([0, 3]) + 100 * rng.randrange(len(R.NEX_VERSIONS)), all_codes, 1500 if quick else 6000))
+    # registered objects of every truth-value flavour, handlers awaiting every delay of the list (virtual time)
+    for i, s in enumerate(servers):
+        cfgs = [(3 if (i + ctx.seed) % 3 == 0 else 0) + 100 * ((i + ctx.seed) % len(R.NEX_VERSIONS))]
+        if not quick: cfgs.append((0 if cfgs[0] % 100 else 3) + 100 * rng.randrange(len(R.NEX_VERSIONS)))
+        for cfg in cfgs:
+            jobs.append(("objects", [s], rng.randrange(1 << 30), ctx.tier, cfg, all_codes, None))
+            jobs.append(("slow", [s], rng.randrange(1 << 30), ctx.tier, cfg, all_codes, None))
+    nores = [s for s in servers if s["noresponse"]]
+    for k in range(4 if quick else 24):
+        pick, used = [], set()
+        for s in ([nores[k % len(nores)]] if nores else []) + rng.sample(servers, len(servers)):   # always a response-less one
+            if s["protocol"] not in used and len(pick) < 8:
+                pick.append(s); used.add(s["protocol"])
+        jobs.append(("objects-mixed", pick, rng.randrange(1 << 30), ctx.tier, rng.choice([0, 3]) + 100 * rng.randrange(len(R.NEX_VERSIONS)), all_codes, 400 if quick else 2000))
     par = min(16, os.cpu_count() or 1)
     with multiprocessing.get_context("fork").Pool(par) as pool:
         parts = pool.map(_worker, jobs, chunksize=1)
@@ -775,7 +923,13 @@ def run(ctx):
                 ex = "m%d:%s" % (case["rq"]["hdr"], tok)
                 if not res.get("skipped"):      # the reference reader vs its Lean twin
                     lines.append("rq %d %s %s" % (case["rq"]["hdr"], tok, case["body"] or "-")); index.append((sid, cid, "rq"))
-            lines.append("sreq %s %s %s" % (case["datagram"], ex, ut)); index.append((sid, cid))
+            if case.get("objects"):
+                # registered OBJECTS: their truth values when this request arrived, the time the user's coroutine awaits
+                truth = "-" if res.get("skipped") else (",".join("%d:%d" % (s["protocol"], 1 if t else 0) for s, t in zip(srvinfos, res["truths"])) or "-")
+                d_ms = case["script"].get("delay_ms")
+                lines.append("sreqo %s %s %s %s %s" % (case["datagram"], ex, ut, truth, "-" if d_ms is None else d_ms)); index.append((sid, cid))
+            else:
+                lines.append("sreq %s %s %s" % (case["datagram"], ex, ut)); index.append((sid, cid))
             if not res.get("skipped"):
                 lines.append("inv %s %s" % (case["datagram"], ex)); index.append((sid, cid, "inv"))
     outs = ctx.driver().batch(lines + wlines)
@@ -800,7 +954,7 @@ def run(ctx):
         if o != real_t:
             n_diff += 1
             if first is None: first = (case, res, line + " -> " + o, "the real validation / encoder: " + real_t, minor, [s["class"] for s in srvinfos])
-    n_cases = n_fresh = n_after_fail = n_inv = n_rq = 0
+    n_cases = n_fresh = n_after_fail = n_inv = n_rq = n_obj = n_falsy = n_slow = 0
     rq_tags = collections.Counter()
     for line, o, ix in zip(lines, outs, index):
         if ix is None:
@@ -834,6 +988,15 @@ def run(ctx):
                 if first is None: first = (case, res, o, "skipped (loop ended)", minor, [s["class"] for s in srvinfos])
             continue
         n_cases += 1
+        if case.get("objects"):
+            # the model's time until the loop is back at recv() (all of the coroutine's awaiting, or none) vs the virtual clock
+            ms, _, o = o.partition(" ")
+            n_obj += 1
+            if res["truthy"] is False: n_falsy += 1
+            if case["script"].get("delay_ms"): n_slow += 1
+            if ms != str(res["elapsed_ms"]) and not res["hang"]:
+                n_diff += 1
+                if first is None: first = (case, res, "back at recv() after %s ms" % ms, "back at recv() after %d ms" % res["elapsed_ms"], minor, [s["class"] for s in srvinfos])
         hres, _, reaction = o.partition(" => ")
         real = ("propagate" if res["loop"] != "alive" else "silent" if not res["sent"] else
                 "send " + res["sent"][0] if len(res["sent"]) == 1 else "multi %d" % len(res["sent"]))
@@ -846,7 +1009,14 @@ def run(ctx):
                  nontrivial=True, tag=tag,
                  sample={"case": {k: v for k, v in case.items() if k != "datagram"}, "model": o[:160], "real": (real_h + " => " + real)[:160]} if n_cases % 7919 == 0 else None)
         bad = judge_case(case, si, res)
-        if bad:
+        if bad and case.get("objects"):
+            what = "RMC server: " + bad[1] + object_context(case, res)
+            ctx.violation("c11:%s:%s" % (bad[0], case["kind"].split(":")[0]), what,
+                          {"sequence": object_sequence(srvinfos, cases[:ix[1] + 1], minor, si), "case": case, "minor_version": minor, "registered": ["%s.%s" % (s["module"], s["class"]) for s in srvinfos],
+                           "objects": case["objects"], "real": res, "model": o,
+                           "how": "harness/corr_C11.py replay(): the sequence on one connection in virtual time (harness/c11_objects.py) against objects of the "
+                                  "user subclasses `objects` (truth-value flavours) of the registered classes; the last request is judged"})
+        elif bad:
             ctx.violation("c11:%s:%s" % (bad[0], case["kind"].split(":")[0]), "RMC server: " + bad[1],
                           {"case": case, "minor_version": minor, "registered": ["%s.%s" % (s["module"], s["class"]) for s in srvinfos],
                            "real": res, "model": o, "how": "harness/corr_C11.py replay(): one session with the registered classes, this datagram and script"})
@@ -855,7 +1025,16 @@ def run(ctx):
             n_fresh += 1
             if case["kind"] == "ok-after-failure": n_after_fail += 1
             fr = fresh[ix[1]]
-            if (fr["sent"], fr["loop"]) != (res["sent"], res["loop"]) and not ctx.violations:
+            if case.get("objects"):
+                if (fr["sent"], fr["loop"]) != (res["sent"], res["loop"]) and not ctx.violations:
+                    who = "%s.%s method %d (%s)" % (case["module"], case["class"], case["method"], case["kind"])
+                    ctx.violation("c11:object-or-duration-dependence:%s" % case["kind"].split(":")[0],
+                                  "RMC server: %s is answered %s%s, but %s when the handler does the same at once on a plain object of the generated class (fresh connection)"
+                                  % (who, res["sent"] or res["loop"], object_context(case, res), fr["sent"] or fr["loop"]),
+                                  {"sequence": cases[:ix[1] + 1], "case": case, "minor_version": minor, "registered": ["%s.%s" % (s["module"], s["class"]) for s in srvinfos],
+                                   "objects": case["objects"], "real": res, "fresh": fr,
+                                   "how": "harness/corr_C11.py replay(): the sequence in virtual time against the user subclasses vs its last request, instant, plain object, fresh connection"})
+            elif (fr["sent"], fr["loop"]) != (res["sent"], res["loop"]) and not ctx.violations:
                 seq = shrink_history(srvinfos, cases[:ix[1] + 1], minor, fr)
                 who = "%s.%s method %d (%s)" % (case["module"], case["class"], case["method"], case["kind"])
                 ctx.violation("c11:history-dependence:%s" % case["kind"].split(":")[0],
@@ -867,6 +1046,9 @@ def run(ctx):
         if hres != real_h or reaction != real:
             n_diff += 1
             if first is None: first = (case, res, o, real_h + " => " + real, minor, [s["class"] for s in srvinfos])
+    ctx.extra["requests_to_objects_of_stateful_user_subclasses_in_virtual_time"] = n_obj
+    ctx.extra["requests_arriving_while_the_addressed_object_is_falsy"] = n_falsy
+    ctx.extra["requests_whose_handler_awaited_virtual_time_first"] = n_slow
     ctx.extra["requests_whose_dispatch_and_invoked_user_method_were_compared_with_the_model"] = n_inv
     ctx.extra["requests_compared_with_fresh_connection"] = n_fresh
     ctx.extra["requests_whose_parameters_were_read_by_the_reference_reader_and_by_the_model"] = n_rq
@@ -911,6 +1093,18 @@ def replay(ctx, path):
             if ref is not None: c["ref"] = ref
         return c
     for c in r.get("sequence", []) + [case]: reref(c)
+    if "objects" in r:
+        seq = r["sequence"]
+        a = OBJ.run_sessions([(regs, seq, r.get("minor_version", 0), r["objects"])])[0]
+        for c, x in zip(seq, a): print("%s.m%d[%s] bool(object)=%s after %s ms -> %s" % (c["class"], c["method"], c["kind"], x.get("truthy"), x.get("elapsed_ms"), x.get("sent") or x.get("loop")))
+        if a[-1].get("skipped"): print("VIOLATION the receive loop had ended"); return 1
+        si = regs[case["srv"]] if case["srv"] is not None else None
+        bad = judge_case(case, si, a[-1])
+        b = R.run_fresh(regs, [OBJ.plain(case)], r.get("minor_version", 0))[0]
+        print("instant handler, plain object, fresh connection ->", b["sent"] or b["loop"])
+        if bad: print("VIOLATION", bad)
+        elif (a[-1]["sent"], a[-1]["loop"]) != (b["sent"], b["loop"]): bad = True; print("VIOLATION object-or-duration-dependence")
+        return 1 if bad else 0
     if "sequence" in r:
         seq = r["sequence"]
         a = R.run_sessions([(regs, seq, r.get("minor_version", 0))])[0]
